@@ -131,6 +131,15 @@ fn post_common<C: BitRepr + Verify>(c: &C, post: &mut Post) -> Option<(Vec<u8>, 
             return None;
         }
     };
+    // a write that the sink refuses comes first: what it leaves in the thread's scratch buffers must
+    // not show in the writes that are judged below
+    if let Err(p) = panicx::catch(|| {
+        let mut bad = crate::bitmodel::FailingSink::new(0, crate::bitmodel::Flavour::Full);
+        let _ = c.write(&mut bad);
+    }) {
+        post.problems.push((format!("write_{}", p.class()), format!("write() into a refusing sink panicked: {}", p.describe())));
+        return None;
+    }
     match panicx::catch(|| {
         let mut s = CountingSink::default();
         c.write(&mut s).map(|()| s.bits).map_err(|e| format!("{e:?}"))
